@@ -74,6 +74,9 @@ def classify_known(binp, seed, f):
     return None
 
 
+LEVEL = 'other'
+
+
 def run(rep, tier, seed, replay=None):
     res, changed = proof_stage(rep, 'C03', extra_trusted=[
         'placement part only is proved; the rest of C03 (tree index errors, fr / flex loops, finiteness) is covered by the fuzz, not by theorems here',
@@ -124,6 +127,20 @@ def run(rep, tier, seed, replay=None):
     # ---- whole-engine totality fuzz
     if replay:
         return
+    # regression corpus: minimal reproducers of the repaired totality defects (known_findings.json, status fixed)
+    corpus_ok = 0
+    for i in range(7):
+        rc_, out_, _ = sh('ulimit -v 4000000; timeout 10 %s c03 corpus %d' % (binp, i), timeout=20)
+        if 'CORPUS %d OK' % i in out_:
+            corpus_ok += 1
+        else:
+            rep.add_violation('regression corpus case %d no longer returns a finite layout (%s)' % (i, out_.strip()[-120:] or 'process died / timed out'),
+                              {'corpus': i, 'cmd': 'vh c03 corpus %d' % i})
+    rep.cov['regression_corpus_ok'] = corpus_ok
+    rep.cov['explanation'] = ('Totality is a theorem only for grid placement (Props/C03.v: no overflow, no out-of-bounds, no negative expansion, '
+                              'termination, on the stated domain), tied by the placement correspondence in release and debug builds. Everything else in '
+                              'C03 (no panic / hang / blow-up / non-finite output anywhere in compute_layout) is explored: regression corpus of repaired '
+                              'defects, placement oracle, and a sandboxed whole-engine fuzz (ulimit -v, watchdog).')
     n = 3000 if tier == 'quick' else 60000
     try:
         done, fails = fuzz(binp, seed, n)
